@@ -1,5 +1,6 @@
 """C12 (linear scale), C13 (linear ticks), C14 (nice: linear and time)."""
 import json, math, sys
+import common
 from common import Report, build_and_audit, drive, fields, rng_for, leanchecker, REPO, fr, time_limit
 
 sys.path.insert(0, REPO)
@@ -52,7 +53,7 @@ def body_c12(tier, seed, rep, only_prop=False, scale=1):
     from labella.scale import LinearScale
     rng = rng_for(seed, "c12")
     lines, metas = [], []
-    n = (5000 if tier == "quick" else 50000) * scale
+    n = common.count(tier, 5000, 50000) * scale
     for _ in range(n):
         a, b = gen_lin_domain(rng, near_degenerate=True)
         r0 = rng.choice([0.0, 0.0, -50.0, 12.5, rnd_mag(rng, -3, 6)])
@@ -73,7 +74,7 @@ def body_c12(tier, seed, rep, only_prop=False, scale=1):
             lines.append("linmono|%s|%s|%s|%s|%s|%s|%s|%s|%s" % (fr(c), fr(a), fr(b), fr(r0), fr(r1), fr(x1), fr(x2), fr(s(x1)), fr(s(x2))))
             metas.append({"kind": "linmono", "a": a, "b": b, "r0": r0, "r1": r1, "clamp": c, "x1": x1, "x2": x2})
     # histories over a scale and its copies
-    for _ in range((2500 if tier == "quick" else 30000) * scale):
+    for _ in range(common.count(tier, 2500, 30000) * scale):
         ops = gen_history(rng)
         try:
             line = run_history(ops)
@@ -196,7 +197,7 @@ def body_c13(tier, seed, rep, only_prop=False, scale=1):
     from labella.scale import LinearScale
     rng = rng_for(seed, "c13")
     lines, metas = [], []
-    for _ in range((9000 if tier == "quick" else 150000) * scale):
+    for _ in range(common.count(tier, 9000, 150000) * scale):
         a, b = gen_lin_domain(rng)
         m = pick_m(rng)
         meta = {"kind": "lticks", "a": a, "b": b, "m": m}
@@ -211,7 +212,7 @@ def body_c13(tier, seed, rep, only_prop=False, scale=1):
         lines.append("lticks|%s|%s|%s|%s|%s" % (fr(a), fr(b), fr(10 if m is None else m), ",".join(fr(t) for t in tk), ";".join(texts))); metas.append(meta)
     # the ticks must be those of the domain the scale reports NOW: ask the same object (and its copies) again after its domain was
     # changed by domain(), nice() or through a copy, with ticks()/tickFormat() calls in between
-    for _ in range((1500 if tier == "quick" else 20000) * scale):
+    for _ in range(common.count(tier, 1500, 20000) * scale):
         a, b = gen_lin_domain(rng)
         ops = [("domain", [a, b])]
         for _k in range(rng.randint(1, 5)):
@@ -266,7 +267,7 @@ def body_c14(tier, seed, rep, only_prop=False, scale=1):
     import check_time as T
     rng = rng_for(seed, "c14")
     lines, metas = [], []
-    for _ in range((6000 if tier == "quick" else 150000) * scale):
+    for _ in range(common.count(tier, 6000, 150000) * scale):
         a, b = gen_lin_domain(rng)
         m = pick_m(rng)
         meta = {"kind": "lnice", "a": a, "b": b, "m": m}
@@ -278,7 +279,7 @@ def body_c14(tier, seed, rep, only_prop=False, scale=1):
         except Exception as e:
             rep.prop_fail.append(("nice raised %s: %s" % (type(e).__name__, e), {"case": meta})); continue
         lines.append("lnice|%s|%s|%s|%s|%s" % (fr(a), fr(b), fr(10 if m is None else m), fr(d[0]), fr(d[1]))); metas.append(meta)
-    for _ in range((8000 if tier == "quick" else 100000) * scale):
+    for _ in range(common.count(tier, 8000, 100000) * scale):
         d0, d1 = T.gen_domain(rng)
         if abs(d1 - d0) < 10:
             d1 = d0 + rng.choice([10, 11, 25])
